@@ -1,6 +1,7 @@
 """C14 - multi-file mode partitions types by crate and imports cross-crate references.
-Proof: Props/C14.v (partition = find_crate_name of the path, union of the per-crate item lists = the
-single-file collector's list; imports sound unconditionally, complete on the declared domain; witnesses).
+Proof: Props/C14.v (24 theorems: partition = find_crate_name of the path, every file holds exactly the declarations of
+its crate's sources, union over the files = the single-file run; imports sound unconditionally, complete on
+dom_C14, good_C14 holds of the model for every workspace and every iteration order; one witness per finding class).
 Correspondence, through the REAL BINARY with `-d`: generated workspaces of 1-5 crates (directory names with
 dashes / underscores / digits, files at depth 0-3 under <crate>/src, files outside any src, nested
 src/../src), cross-crate references introduced by every `use` form of the property and by qualified
@@ -427,8 +428,8 @@ def decode_model(m):
 
 def run(chk):
     chk.rule = ('seeded workspaces of 1-5 crates (directory names with - _ digits, optionally under libs/ or crates/shared/), 1-3 files per crate at depth 0-3 '
-                'under src, 1-3 generated items per file (lib/progs.py, 20% serde-renamed types) plus one struct per file whose fields refer to types of other '
-                'crates / other files of the same crate; each reference is introduced by one of: use d::..::N, grouped use d::{..}, nested use d::m::{z::{N}, x::M}, '
+                'under src, 1-3 generated items per file (lib/progs.py, 20% serde-renamed types) plus one item per file - a struct, an algebraic enum with tuple and '
+                'struct variants, a type alias or a newtype - whose member types refer to types of other crates / other files of the same crate; each reference is introduced by one of: use d::..::N, grouped use d::{..}, nested use d::m::{z::{N}, x::M}, '
                 'glob, qualified path d::..::N, crate:: / super:: / self:: (use or path), unknown crate, std/serde_json (ignored crates); 25% with a type mapping on a '
                 'referenced type, 25% (>=3 crates) with a same-named type in two crates; files outside src, nested src/x/src, src/src; plus a hand-written corpus with '
                 'one workspace per finding class and domain boundary. Every workspace is run through the real binary in all six languages with -d and with -o. '
